@@ -92,6 +92,27 @@ class _Srv(object):
         conn.settimeout(30)
         return out
 
+    def read_until(self, done, bound=5.0, quiet=0.05):
+        """octets the client wrote until done(octets) holds (or the bound is over), then until nothing arrives for `quiet` s"""
+        conn = self.conn
+        t = now() + bound
+        conn.settimeout(0.05)
+        last = now()
+        ok = done(self.rbuf)
+        while now() < t and not (ok and now() - last >= quiet):
+            try:
+                d = conn.recv(65536)
+            except (socket.timeout, ssl.SSLWantReadError):
+                continue
+            except Exception:
+                break
+            if not d: break
+            self.rbuf += d; last = now()
+            if not ok: ok = done(self.rbuf)
+        out, self.rbuf = self.rbuf, b''
+        conn.settimeout(30)
+        return out
+
     def send(self, data):
         try:
             self.conn.sendall(data); return True
@@ -380,9 +401,10 @@ def run_inbound(case):
     return obs
 
 
-def run_outbound(case):
+def run_outbound(case, done):
     """C02, outbound direction through the real transport: after the hello exchange the client submits case['msgs'] with
-    Session.send; the scripted server reads the octets up to the len(msgs)-th terminator.
+    Session.send; the scripted server reads until done(octets) holds (the caller's receiver has all messages; a terminator
+    look-alike inside a 1.1 payload must not end the reading) and nothing more arrives for 50 ms, or for 10 s.
     Returns dict(open_error, client_hello (bytes), wire (bytes), errors_before_close, worker_alive_after_close)."""
     kind, base = case['transport'], case['base']
     obs = dict(open_error=None, client_hello=b'', wire=b'', errors_before_close=[], worker_alive_after_close=None)
@@ -396,9 +418,7 @@ def run_outbound(case):
             c.sess.send(m)
         if case.get('reader_delay_ms'):
             time.sleep(case['reader_delay_ms'] / 1000.0)      # the transport fills up: real short writes
-        obs['wire'] = c.srv.read_frames(len(case['msgs']), bound=2 * DELIVER_BOUND)
-        time.sleep(0.01)
-        obs['wire'] += c.srv.read_frames(1, bound=0.05)       # anything after the last terminator is an error
+        obs['wire'] = c.srv.read_until(done, bound=2 * DELIVER_BOUND)
         obs['errors_before_close'] = c.errs()
         obs['writes'] = list(c.sess.c01_writes)
         obs['queue_left'] = c.sess._q.qsize()
@@ -532,6 +552,12 @@ def judge_inbound(case, obs):
         return bad('the session could not be opened against the scripted server: %s' % obs['open_error'])
     if obs.get('send_error'):
         return bad('the scripted server could not write (%s): the client end went away; errors %r' % (obs['send_error'], obs['errors_before_close']))
+    got = b''.join(reads)
+    if not stream.startswith(got):
+        k = next(j for j in range(len(got)) if got[j:j + 1] != stream[j:j + 1])
+        return bad('the octets returned by _transport_read are not the octets written to the transport: first difference at offset %d of %d '
+                   '(read no. %d), written %r, read %r' % (k, len(stream), sum(1 for j in range(len(reads)) if sum(len(r) for r in reads[:j + 1]) <= k) + 1,
+                                                         stream[max(k - 6, 0):k + 6], got[max(k - 6, 0):k + 6]))
     if obs['stalled_at']:
         i, sent, got = obs['stalled_at']
         return bad('stall: %d octets were written to the transport (piece %d), the session read only %d within %.0f s '
